@@ -43,6 +43,7 @@ type concLine struct {
 	SMPre SMState  `json:"smpre"`
 	SMSt  SMState  `json:"smst"`
 	Note  string   `json:"note"`
+	Sig   string   `json:"sig"` // hang / crash: what the goroutine stacks (or the panic message) identify, "" if nothing known
 	Acc   int      `json:"acc"` // actbatch: accepted actions
 	Mover string   `json:"mover"`
 }
@@ -97,7 +98,7 @@ func cmdConc(args []string) int {
 			select {
 			case <-scenDone:
 			case <-time.After(90 * time.Second):
-				emit(concLine{Tr: int(seed), N: 9999, Ev: "hang", Procs: runtime.GOMAXPROCS(0), Pre: blankP, St: blankP, SMPre: emptySM(), SMSt: emptySM(), Note: "a concurrent scenario made no progress for 90 s"})
+				emit(concLine{Tr: int(seed), N: 9999, Ev: "hang", Procs: runtime.GOMAXPROCS(0), Pre: blankP, St: blankP, SMPre: emptySM(), SMSt: emptySM(), Note: "a concurrent scenario made no progress for 90 s", Sig: hangSignature()})
 				w.Flush()
 				syscall.Dup2(realOut, 1)
 				fmt.Fprintf(os.NewFile(uintptr(realOut), "stdout"), "{\"scenarios\":%d,\"lines\":%d,\"hung\":1}\n", i, lines)
@@ -204,7 +205,7 @@ func cmdConc(args []string) int {
 			case <-done:
 			case <-time.After(20 * time.Second):
 				nline++
-				emit(concLine{Tr: int(seed), N: nline, Ev: "hang", Procs: runtime.GOMAXPROCS(0), Ops: ops, Pre: pre, St: blankP, SMPre: emptySM(), SMSt: emptySM(), Note: "a membership call did not return"})
+				emit(concLine{Tr: int(seed), N: nline, Ev: "hang", Procs: runtime.GOMAXPROCS(0), Ops: ops, Pre: pre, St: blankP, SMPre: emptySM(), SMSt: emptySM(), Note: "a membership call did not return", Sig: hangSignature()})
 				w.Flush()
 				os.Exit(0)
 			}
